@@ -50,12 +50,15 @@ type Ticker struct {
 	vt *vtimer
 }
 
+//go:norace
 func newVT(d Duration, period Duration) *vtimer {
+	hb(&timeHB) // race mode: arming a timer happens before its firing
 	t := &vtimer{when: S.clock.Add(d), ch: make(chan time.Time, 1), armed: true, period: period}
 	S.timers = append(S.timers, t)
 	return t
 }
 
+//go:norace
 func Now() Time {
 	if !S.Active {
 		if S.clock.IsZero() {
@@ -65,15 +68,19 @@ func Now() Time {
 	}
 	return S.clock
 }
+//go:norace
 func Since(t Time) Duration { return Now().Sub(t) }
+//go:norace
 func Until(t Time) Duration { return t.Sub(Now()) }
 
+//go:norace
 func NewTimer(d Duration) *Timer {
 	Point()
 	t := newVT(d, 0)
 	return &Timer{C: t.ch, vt: t}
 }
 
+//go:norace
 func AfterFunc(d Duration, f func()) *Timer {
 	Point()
 	t := newVT(d, 0)
@@ -81,6 +88,7 @@ func AfterFunc(d Duration, f func()) *Timer {
 	return &Timer{C: nil, vt: t}
 }
 
+//go:norace
 func NewTicker(d Duration) *Ticker {
 	if d <= 0 {
 		panic("non-positive interval for NewTicker")
@@ -90,11 +98,13 @@ func NewTicker(d Duration) *Ticker {
 	return &Ticker{C: t.ch, vt: t}
 }
 
+//go:norace
 func After(d Duration) <-chan Time {
 	Point()
 	return newVT(d, 0).ch
 }
 
+//go:norace
 func Sleep(d Duration) {
 	if d <= 0 {
 		Point()
@@ -103,6 +113,7 @@ func Sleep(d Duration) {
 	Recv(After(d))
 }
 
+//go:norace
 func drain(ch chan time.Time) bool {
 	select {
 	case <-ch:
@@ -112,11 +123,13 @@ func drain(ch chan time.Time) bool {
 	}
 }
 
+//go:norace
 func (t *Timer) Stop() bool {
 	if S.killed {
 		return false
 	}
 	Point()
+	hb(&timeHB)
 	pending := t.vt.armed
 	t.vt.armed = false
 	if drain(t.vt.ch) {
@@ -125,11 +138,13 @@ func (t *Timer) Stop() bool {
 	return pending
 }
 
+//go:norace
 func (t *Timer) Reset(d Duration) bool {
 	if S.killed {
 		return false
 	}
 	Point()
+	hb(&timeHB)
 	pending := t.vt.armed
 	if drain(t.vt.ch) {
 		pending = true
@@ -139,20 +154,24 @@ func (t *Timer) Reset(d Duration) bool {
 	return pending
 }
 
+//go:norace
 func (t *Ticker) Stop() {
 	if S.killed {
 		return
 	}
 	Point()
+	hb(&timeHB)
 	t.vt.armed = false
 	drain(t.vt.ch)
 }
 
+//go:norace
 func (t *Ticker) Reset(d Duration) {
 	if S.killed {
 		return
 	}
 	Point()
+	hb(&timeHB)
 	drain(t.vt.ch)
 	t.vt.armed = true
 	t.vt.period = d
@@ -160,6 +179,7 @@ func (t *Ticker) Reset(d Duration) {
 }
 
 // PendingTimer reports whether an armed timer exists.
+//go:norace
 func PendingTimer() bool {
 	for _, t := range S.timers {
 		if t.armed {
@@ -170,6 +190,7 @@ func PendingTimer() bool {
 }
 
 // NextDeadline returns the earliest armed deadline.
+//go:norace
 func NextDeadline() (Time, bool) {
 	var best *vtimer
 	for _, t := range S.timers {
@@ -184,6 +205,7 @@ func NextDeadline() (Time, bool) {
 }
 
 // ArmedDeadlines lists the deadlines of all armed timers (oracles on "timer is armed with deadline <= x").
+//go:norace
 func ArmedDeadlines() []Time {
 	var l []Time
 	for _, t := range S.timers {
@@ -195,6 +217,7 @@ func ArmedDeadlines() []Time {
 }
 
 // FireNext advances the clock to the earliest armed timer and delivers it (non-blocking, like the runtime).
+//go:norace
 func FireNext() {
 	var best *vtimer
 	for _, t := range S.timers {
@@ -216,6 +239,7 @@ func FireNext() {
 	} else {
 		best.armed = false
 	}
+	hb(&timeHB)
 	if best.f != nil {
 		f := best.f
 		Go(f)
@@ -225,6 +249,7 @@ func FireNext() {
 }
 
 // Advance moves the virtual clock without firing anything (sequential harnesses).
+//go:norace
 func Advance(d Duration) {
 	if S.clock.IsZero() {
 		S.clock = epoch
@@ -233,12 +258,14 @@ func Advance(d Duration) {
 }
 
 // SetClockInactive prepares the virtual clock for sequential (non-scheduled) use.
+//go:norace
 func ResetInactive() {
-	*S = Sched{chans: map[uintptr]*chanState{}, clock: epoch, MaxSteps: S.MaxSteps}
+	*S = Sched{clock: epoch, MaxSteps: S.MaxSteps}
 }
 
 // StartClock spawns the clock daemon: "advance to the earliest deadline and fire it", enabled whenever a timer is armed.
 // It stops when stop() returns true.
+//go:norace
 func StartClock(stop func() bool) {
 	GoDaemon("clock", func() {
 		for {
@@ -256,6 +283,7 @@ type MemStats = runtime.MemStats
 
 var CPUs = 1
 
+//go:norace
 func NumCPU() int { return CPUs }
 
 var (
